@@ -56,7 +56,7 @@ fn hash_vec(h: &mut Hasher, v: &[f32]) {
 fn main() {
     let cli = Cli::parse();
     let mut rep = Report::new("C16", &cli);
-    rep.note("rule", json!("cases = (length n in 0..=130 [every n visited by every shard], draw k): random f32 vectors x,y,z of length n (plus an unequal-length partner), magnitudes log-uniform 1e-3..1e3, 5% zeros; a case is non-trivial when n>0 and x,y are non-zero and different; distinct = FNV hash of (n, x, y) bits. Oracles: round-trip == input zero-padded to a multiple of 8; euclidean/cosine vs f64 textbook on the common packed prefix (rel 1e-5 + abs 1e-6 / abs 2e-5 for cosine); bit-level symmetry; d(x,x)==0; triangle inequality; |cos|<=1+1e-6; parallel/opposite = +-1; positive-scale invariance"));
+    rep.note("rule", json!("cases = (length n in 0..=130 [every n visited by every shard], draw k): random f32 vectors x,y,z of length n (plus an unequal-length partner), magnitudes log-uniform 1e-3..1e3, 5% zeros; every 4th draw y is a relative perturbation (1e-6..1e-2) of x; a case is non-trivial when n>0 and x,y are non-zero and different; distinct = FNV hash of (n, x, y) bits. Oracles: round-trip == input zero-padded to a multiple of 8; euclidean/cosine vs f64 textbook on the common packed prefix (rel 1e-5 + abs 1e-6 / abs 2e-5 for cosine); bit-level symmetry; d(x,x)==0; triangle inequality; |cos|<=1+1e-6; parallel/opposite = +-1; positive-scale invariance"));
     rep.note("assumptions", json!(["f64 evaluation of the textbook formula is the reference", "vectors hold finite values of magnitude <= ~5e3 (the property's 'several magnitudes')"]));
     let max_len = if cli.small { cli.param_u64("maxlen", 17) as usize } else { 130 };
     let draws = cli.cases(40 * 8, 3000 * 16); // per shard: draws per length
@@ -74,6 +74,14 @@ fn main() {
             let mut rng = Rng::for_case(cli.seed, cli.shard, case_index);
             let x = gen_vec(&mut rng, n);
             let y = gen_vec(&mut rng, n);
+            // every 4th draw: y is a small perturbation of x (distance tiny relative to the norms - the regime in which
+            // a |a|^2 + |b|^2 - 2ab style evaluation cancels catastrophically)
+            let y = if k % 4 == 3 && n > 0 {
+                let rel = rng.log_uniform(1e-6, 1e-2);
+                x.iter().map(|v| (*v as f64 * (1.0 + rel * rng.normal()) + if *v == 0.0 { 0.0 } else { 0.0 }) as f32).collect()
+            } else {
+                y
+            };
             let z = gen_vec(&mut rng, n);
             let m = rng.usize(max_len + 1);
             let u = gen_vec(&mut rng, m);
